@@ -236,6 +236,7 @@ def check(chk):
 
     # ------------------------------------------------------------- SORT-1
     _sort_rule(chk, f_add)
+    _removal_complete(chk, repo)
 
     # ------------------------------------------------------------- FLOW-1 / DOM-2
     for f in (f_rh, f_rhs):
@@ -561,6 +562,35 @@ def _qdisc(chk, em, f_peq):
             chk.missing("QDISC-1", "%s deque is used with both of its ends %s (saw %s)" % (k, sorted(ops), sorted(seen[k])),
                         f_peq)
     chk.floor("QDISC-1", 6)
+
+
+def _removal_complete(chk, repo):
+    """REMOVE-1: the removal API takes away *every* registration it is asked to: the scan over a handler list is never left early and
+    removes exactly the entries that match (handler / key), so that delivery after a removal is complete with respect to the history
+    of registrations and removals (a callable registered twice is gone after one remove)."""
+    from sa.helpers import inloop_guards
+    from sa.cfg import canon_fact
+    n = 0
+    for name, match in (("remove_handler", ("handler_tup[0] == method",)), ("remove_handler_by_event", ("handler_tup[0] == handler",)),
+                        ("remove_handler_by_key", ("handler_tup.key == key.key",))):
+        f = repo.func(EV, EM + "." + name)
+        chk.analysed(f)
+        cfg = f.cfg()
+        rms = [(x, c) for x, c in cfg.calls_named("remove") if c.args and isinstance(c.args[0], ast.Name)]
+        chk.need(rms, "REMOVE-1", "%s removes registrations from a handler list" % name, f)
+        for x, c in rms:
+            lps = [h for h in cfg.nodes if h.kind == "loop" and any(y is c for y in ast.walk(h.ast))]
+            chk.need(lps, "REMOVE-1", "%s scans a handler list" % name, f)
+            lp = lps[-1]
+            n += 1
+            early = [y for y in ast.walk(lp.ast) if isinstance(y, (ast.Break, ast.Return))]
+            chk.ob("REMOVE-1", "%s removes every matching registration (the scan is never left early)" % name, not early, f.where(early[0]) if early else f.where(lp.ast),
+                   detail="a callable registered twice keeps one registration" if early else "", construct=f.ident, text="removal scan left early in " + name)
+            got = inloop_guards(cfg, x.id, lp.id)
+            want = {canon_fact(m_, True) for m_ in match}
+            chk.ob("REMOVE-1", "%s removes exactly the registrations that match" % name, got == want, f.where(c), detail="selected by %s" % sorted(got),
+                   construct=f.ident, text="removal match in " + name)
+    chk.ob("REMOVE-1", "removal scans examined", n >= 3, EV + ":1", detail=str(n), nontrivial=False)
 
 
 def _sort_rule(chk, f_add):
@@ -924,6 +954,8 @@ def battery():
         M("twin: dispatch loop over a tuple-unpacked snapshot", EV, "        for handler in self.registered_handlers[event][:]:", "        for handler, _prio in [(h, h.priority) for h in self.registered_handlers[event]]:", None, nth=0),
         M("sort skipped when the new handler does not outrank the last one (decided before the relative priority is added)", EV, "        if len(self.registered_handlers[event]) > 1:\n            self.registered_handlers[event].sort(key=lambda x: x.priority, reverse=True)", "        if self.registered_handlers[event][-2:-1] and self.registered_handlers[event][-2].priority < priority:\n            self.registered_handlers[event].sort(key=lambda x: x.priority, reverse=True)", "SORT-1"),
         M("twin: handler list aliased in add_handler", EV, "        self.registered_handlers[event].append(RegisteredHandler(handler, priority, kwargs, key, condition,\n                                                                 blocking_facility))", "        handlers = self.registered_handlers[event]\n        handlers.append(RegisteredHandler(handler, priority, kwargs, key, condition,\n                                                                 blocking_facility))", None),
+        M("remove_handler_by_event removes only the first registration", EV, "                    events_to_delete_if_empty.append(event)\n\n        for this_event in events_to_delete_if_empty:", "                    events_to_delete_if_empty.append(event)\n                    break\n\n        for this_event in events_to_delete_if_empty:", "REMOVE-1"),
+        M("removal by key also needs the same priority", EV, "            if handler_tup.key == key.key:", "            if handler_tup.key == key.key and handler_tup.priority >= 0:", "REMOVE-1"),
     ]
 
 
